@@ -3,7 +3,7 @@ import Gsu.Util.Proto
 open Gsu.Proto Gsu.RecRules
 
 /-! Driver for C35. Ops (slots 0..1, fields by number, rule bodies in RPN):
-  reset | rule k tok… | put s k v | get s k | del s k | inv s k | copy s d | obs s | log s | deps s k -/
+  reset | rule k [guard… ?] body… | put s k v | get s k | del s k | inv s k | copy s d | obs s | log s | deps s k -/
 
 structure St where
   rules : Rules := []
@@ -39,9 +39,17 @@ def withRec (st : St) (s : String) (f : Rec → Rec × String) : St × String :=
 def step (st : St) (l : List String) : St × String :=
   match l with
   | ["reset"] => ({}, "ok")
-  | "rule" :: k :: toks => match k.toNat?, parseRpn toks [] with
-    | some k, some e => ({ st with rules := setv st.rules k e }, "ok")
-    | _, _ => (st, "bad-op")
+  | "rule" :: k :: toks =>
+    -- `rule k body…` or `rule k guard… ? body…`
+    let gs := toks.takeWhile (· ≠ "?")
+    let bs := (toks.dropWhile (· ≠ "?")).drop 1
+    if toks.contains "?" then
+      match k.toNat?, parseRpn gs [], parseRpn bs [] with
+      | some k, some g, some b => ({ st with rules := setv st.rules k ⟨some g, b⟩ }, "ok")
+      | _, _, _ => (st, "bad-op")
+    else match k.toNat?, parseRpn toks [] with
+      | some k, some e => ({ st with rules := setv st.rules k ⟨none, e⟩ }, "ok")
+      | _, _ => (st, "bad-op")
   | ["put", s, k, v] => match k.toNat?, v.toInt? with
     | some k, some v => withRec st s fun r => (put fuel r k v, "ok")
     | _, _ => (st, "bad-op")
